@@ -86,9 +86,11 @@ def vfiles():
 # translation obligations: definitions regenerated from /repo's source on every run (harness/translate.py) and proved equal to
 # the model by conversion; a property lists the generated files its theorems lean on
 TRANSLATED = {"C05": ["NAdvanceGen", "MultistageGen"], "C13": ["NAdvanceGen", "TwoLevelGen"], "C17": ["NAdvanceGen"], "C10": ["FinalizeGen"], "C18": ["ActValGen"], "C11": ["ObserversGen"],
-              "C01": ["BasicGen", "TwoLevelGen", "MultistageGen", "ConverterGen", "ConvertGen"], "C02": ["BasicGen", "TwoLevelGen", "MultistageGen", "ConverterGen"], "C03": ["BasicGen", "TwoLevelGen", "MultistageGen", "ConverterGen"],
-              "C04": ["BasicGen", "TwoLevelGen", "MultistageGen", "ConverterGen"], "C08": ["BasicGen", "TwoLevelGen", "MultistageGen", "ConverterGen"], "C09": ["BasicGen", "TwoLevelGen", "MultistageGen", "ConverterGen"],
-              "C12": ["BasicGen", "TwoLevelGen", "MultistageGen", "ConverterGen", "ConvertGen"], "C14": ["MultistageGen"], "C06": ["MemoGen"], "C15": ["MemoGen"], "C16": ["MemoGen"]}
+              "C01": ["BasicGen", "TwoLevelGen", "MultistageGen", "ConverterGen", "ConvertGen", "MixedGen"], "C02": ["BasicGen", "TwoLevelGen", "MultistageGen", "ConverterGen", "MixedGen"],
+              "C03": ["BasicGen", "TwoLevelGen", "MultistageGen", "ConverterGen", "MixedGen"], "C04": ["BasicGen", "TwoLevelGen", "MultistageGen", "ConverterGen", "MixedGen"],
+              "C08": ["BasicGen", "TwoLevelGen", "MultistageGen", "ConverterGen", "MixedGen"], "C09": ["BasicGen", "TwoLevelGen", "MultistageGen", "ConverterGen", "MixedGen"],
+              "C12": ["BasicGen", "TwoLevelGen", "MultistageGen", "ConverterGen", "ConvertGen", "MixedGen"], "C14": ["MultistageGen"], "C06": ["MemoGen", "MixedGen"], "C15": ["MemoGen"],
+              "C16": ["MemoGen", "MixedGen"]}
 
 
 def translation_layer(pid, res):
